@@ -351,3 +351,44 @@ func init() {
 		restarts: []uint32{4, 7, 9},
 	})
 }
+
+func init() {
+	corpus = append(corpus, corpusCase{
+		// (seeded change C01-m8) the same natively cached setting written twice in ONE block by two HALTed committee
+		// transactions — the append-only gasPerBlock cache then holds two records of the same index, storage one —,
+		// replica B restarted exactly at that height, the values read and used in the next block
+		name: "setting-written-twice-restart-read", csize: 2, vcount: 1, extra: 2, blocks: 8,
+		gen: func(c *caseRun, h uint32) []*op {
+			w := c.w
+			switch h {
+			case 1:
+				return compact(c.setupGasOnly())
+			case 2:
+				return compact(
+					w.gcall("neo.setGasPerBlock", false, int64(3_0000_0000)),
+					w.gcall("neo.setGasPerBlock", false, int64(7_0000_0000)),
+					w.gcall("neo.setRegisterPrice", false, int64(11_0000_0000)),
+					w.gcall("neo.setRegisterPrice", false, int64(12_0000_0000)),
+					w.opPolicySetExact(0, 555), w.opPolicySetExact(0, 777),
+					w.gcall("policy.setAttributeFee", false, int64(33), int64(100)),
+					w.gcall("policy.setAttributeFee", false, int64(33), int64(200)))
+			case 3: // B restarted before this block
+				return compact(w.opReadSettings())
+			case 4:
+				return compact(w.opPolicySetExact(1, 50_0000), w.opPolicySetExact(1, 70_0000),
+					w.opPolicySetExact(2, 4444), w.opPolicySetExact(2, 5555),
+					w.gcall("neo.setGasPerBlock", false, int64(1_0000_0000)),
+					w.gcall("neo.setGasPerBlock", false, int64(2_0000_0000)),
+					w.gcall("neo.setGasPerBlock", false, int64(9_0000_0000)))
+			case 5: // no restart: both replicas hold the duplicated records
+				return compact(w.opReadSettings())
+			case 6:
+				return compact(w.opRegister(0, false, false), w.opRegister(0, true, false))
+			case 7: // B restarted before this block
+				return compact(w.opReadSettings())
+			}
+			return nil
+		},
+		restarts: []uint32{3, 7},
+	})
+}
